@@ -198,8 +198,11 @@ class Tie:
                          % (b.hex(), o["renamed"].get("hex"), ref.hex() if ref else None), case)
                 return False
         elif o["renamed"]["r"] == "ok" and ref is not None and bytes.fromhex(o["renamed"]["hex"]) != ref:
-            self.findings.setdefault("parse-noncanonical-rewritten", (b.hex(), o["renamed"]["hex"]))
             self.count("parse:noncanonical-altered")
+            if struct.unpack(">i", b[1:5])[0] == len(b) - 1:          # only frames read_message can deliver
+                key = "parse-nonutf8-rewritten" if any(x >= 128 for x in b[5:]) and bytes(query) + bytes(name) != b"" and \
+                    (bytes(name) + b"\0" + bytes(query)) not in b else "parse-noncanonical-rewritten"
+                self.findings.setdefault(key, (b.hex(), o["renamed"]["hex"], ref.hex()))
         return True
 
     # -- Bind decode/encode
@@ -368,13 +371,13 @@ def layer1(run, binp, quick, chk=True, tag="debug"):
     for n in NAMES:
         for q in QUERIES[:6]:
             cases.append(("parse", L.parse_msg(n, q, [23] if b"$1" in q else []), rng.choice(NEWNAMES)))
-    for _ in range(250 * N):
+    for _ in range((180 if quick else 250) * N):
         cases.append(("parse", gen_parse(rng), rng.choice(NEWNAMES)))
-    for _ in range(200 * N):
+    for _ in range((140 if quick else 200) * N):
         b = gen_bind(rng, nulls=rng.random() < 0.6)
         cases.append(("bind", b, b""))
         cases.append(("bind_rename", b, rng.choice(NEWNAMES)))
-    for _ in range(120 * N):
+    for _ in range((80 if quick else 120) * N):
         cases.append(("describe", gen_describe(rng), rng.choice(NEWNAMES)))
         cases.append(("close", gen_describe(rng, b"C"), b""))
     for _ in range(60 * N):
@@ -389,7 +392,7 @@ def layer1(run, binp, quick, chk=True, tag="debug"):
     for op, b in seeds:
         for mb in mutations(rng, b, True):
             mal.append((op, mb))
-    for _ in range(30 * N):
+    for _ in range((22 if quick else 30) * N):
         for op, g in (("parse", gen_parse), ("bind", gen_bind), ("describe", gen_describe)):
             for mb in mutations(rng, g(rng), False):
                 mal.append((op, mb))
@@ -789,7 +792,9 @@ def check(run):
         if k.startswith("bind-rename-nonutf8"):
             run.known_finding("F8b Bind::rename computes the new length from the lossy-decoded name: a statement name that is not valid UTF-8 yields a frame whose length field is wrong (input %s, renamed to %s -> %s, splice would be %s)" % v, key="F8b")
         elif k.startswith("parse-noncanonical"):
-            run.known_finding("F8a buffer_parse re-encodes instead of splicing: a Parse that is not a canonical frame (trailing bytes, missing terminator, non-UTF-8 text, negative count) reaches the server altered, e.g. %s -> %s" % v, key="F8a")
+            run.known_finding("F8a buffer_parse decodes and re-encodes instead of splicing: a Parse with bytes after its parameter types (or an unterminated query) reaches the server trimmed, e.g. %s -> %s (name/length splice would be %s)" % v, key="F8a")
+        elif k.startswith("parse-nonutf8"):
+            run.known_finding("F8 query text / statement name that is not valid UTF-8 (any other client_encoding) is rewritten by String::from_utf8_lossy in buffer_parse: %s -> %s (name/length splice would be %s)" % v, key="F8")
 
     run.cov["evaluations"] = evals
     run.cov["distinct_nontrivial"] = distinct
